@@ -100,6 +100,7 @@ def generate(seed, run, tier):
             tail += [{'op': 'set_mode', 'mode': m_}, {'op': 'forward_only', 'no_grad': True}]
         ops[i:i] = tail
     ops = sched.add_bystanders(cfg, ops, Stream(seed, ID, run, 'bystanders'), p=0.12)
+    ops = sched.add_mode_scopes(cfg, ops, Stream(seed, ID, run, 'mixed_mode'))
     return {'cfg': cfg, 'ops': ops, 'run_seed': mix(seed, ID, run, 'run')}
 
 
